@@ -298,6 +298,7 @@ struct Tree {
     /// (None: the watch was lost because the inode was unlinked / replaced)
     watched_inode: BTreeMap<PathBuf, Option<PathBuf>>,
     strays: BTreeSet<String>,
+    stray_writes: u64,
 }
 
 fn ev(kind: EventKind, paths: &[&Path]) -> DebouncedEvent {
@@ -399,6 +400,7 @@ impl Tree {
                 }
                 fs::write(&p, &bytes).ok()?;
                 if p.starts_with(&self.artifact_dir) {
+                    self.stray_writes += 1;
                     self.strays.insert(
                         p.strip_prefix(&self.artifact_dir).unwrap().to_string_lossy().to_string(),
                     );
@@ -708,6 +710,7 @@ impl Runner {
             artifact_dir: config.artifact_directory.absolute_path.clone(),
             watched_inode: BTreeMap::new(),
             strays: BTreeSet::new(),
+            stray_writes: 0,
         };
         tree.watched_inode.insert(tree.schema.clone(), Some(tree.schema.clone()));
         for e in tree.extensions.clone() {
@@ -735,6 +738,8 @@ impl Runner {
         let mut prev_fresh_fp = last.fingerprint();
         stats.outcome_trace.push(prev_fresh_fp);
 
+        let mut cached_dir: Option<BTreeMap<String, Vec<u8>>> = None;
+        let mut strays_at_snapshot = 0u64;
         for (si, step) in case.steps.iter().enumerate() {
             stats.steps_run += 1;
             // 1. the edits of this debounce window
@@ -796,7 +801,12 @@ impl Runner {
                     }
                     Ok(Ok(())) => {}
                 }
-                let before = dir_snapshot(&tree.artifact_dir);
+                // the directory as the previous compile left it (nothing else writes there
+                // except the stray files of this script, which invalidate the cached snapshot)
+                let before = match (&cached_dir, tree.stray_writes == strays_at_snapshot) {
+                    (Some(s), true) => s.clone(),
+                    _ => dir_snapshot(&tree.artifact_dir),
+                };
                 let result = guarded(|| compile::<Profile>(&mut state));
                 match result {
                     Err(p) => {
@@ -850,6 +860,8 @@ impl Runner {
                     // the directory the user sees
                     stats.dir_checks += 1;
                     let mut on_disk = dir_snapshot(&tree.artifact_dir);
+                    cached_dir = Some(on_disk.clone());
+                    strays_at_snapshot = tree.stray_writes;
                     for s in &tree.strays {
                         on_disk.remove(s);
                     }
@@ -1307,7 +1319,16 @@ pub fn main(input_path: &str) {
                 let key = format!("{}/{}", fired.rule, special_cause(case, &fired).unwrap_or_default());
                 let seen = shrunk_per_key.entry(key).or_insert(0u32);
                 *seen += 1;
-                let mut budget = if !input.shrink { 0 } else if *seen <= 2 { 300 } else { 40 };
+                let recognised = special_cause(case, &fired).is_some();
+                let mut budget = if !input.shrink {
+                    0
+                } else if recognised {
+                    if *seen <= 1 { 60 } else { 12 }
+                } else if *seen <= 2 {
+                    300
+                } else {
+                    60
+                };
                 let (small, small_fired) = shrink(&runner, case, &fired, &mut budget);
                 let cause = cause_of(&runner, &small, &small_fired);
                 line["violation"] = json!({
